@@ -2,6 +2,9 @@ module verifharness
 
 go 1.21
 
-require github.com/olareg/olareg v0.0.0
+require (
+	github.com/olareg/olareg v0.0.0
+	github.com/opencontainers/go-digest v1.0.0
+)
 
 replace github.com/olareg/olareg => /repo
